@@ -22,7 +22,11 @@ func VerifC09Uncertain() {
 	retryInterval = 1000 * time.Millisecond
 	checkInterval = 50 * time.Millisecond
 	w := vNewWorld(zzverif.Param("keys", 1))
-	w.history()
+	if sc := zzverif.Param("scenario", -1); sc >= 0 {
+		w.vScenario(sc) // a fixed key history: 0 = created and deleted (the deletion mark is still there)
+	} else {
+		w.history()
+	}
 	rg := vRanges[0]
 	l, err := w.b.List(vCtx(), &proto.RangeRequest{Key: rg[0], End: rg[1]})
 	zzverif.Assert(err == nil, "list: no error")
@@ -36,8 +40,16 @@ func VerifC09Uncertain() {
 	// the faulted request
 	applied := zzverif.Choose("variant", 2) == 0
 	fired, uncertain := false, false
+	// the fault hits the request's first commit or (faultpos > 1) a later one: a create over a
+	// deletion mark commits twice
+	faultAt := zzverif.Choose("faultAt", zzverif.Param("faultpos", 1))
+	ncommit := 0
 	w.s.FaultAt = func(kind string, n int) zzmodel.Fault {
 		if kind != "commit" || fired {
+			return zzmodel.FaultNone
+		}
+		ncommit++
+		if ncommit-1 != faultAt {
 			return zzmodel.FaultNone
 		}
 		fired = true
